@@ -491,15 +491,20 @@ class WriterTable:
                 raise Unknown('tie writer emits %r' % (v,))
             return ('OK', (v[1], v[2] + after), before, env[st])
 
-        def finish(s):
+        def finish(s, dec):
+            """the last token (own decoration `dec`) after the code that follows the loop"""
             fe = FiniteEval(lambda n, env: NOATOM, lists=self.outs)
             fe.resolver = resolver
-            env = {st: s}
+            env = {st: s, '__last__': ('tok', dec[0], dec[1])}
             try:
                 fe.run(post, env)
             except Stop:
                 pass
-            return ''.join(a[2] for a in fe.actions if a[0] == 'suffix_last')
+            v = env['__last__']
+            if not (isinstance(v, tuple) and v and v[0] == 'tok'):
+                return ('BAD', 'the code after the loop replaces the last token %r by %r (9 stands for the last digit of the number): the number is lost or truncated'
+                        % (dec[0] + '<n>' + dec[1], v))
+            return ('OK', (v[1], v[2]))
 
         raw = {}
         todo = [(self.init, None)]
@@ -540,7 +545,12 @@ class WriterTable:
                     continue
                 pre, suf = r[1]
                 if last:
-                    extra = finish(r[3])
+                    f = finish(r[3], (pre, suf))
+                    if f[0] == 'BAD':
+                        self.table[(ws(key), t, last)] = ('BAD', f[1], ws(key))
+                        continue
+                    pre, suf = f[1]
+                    extra = ''
                     nxt = ws(key)
                 else:
                     extra = closes((r[3], t))
